@@ -221,7 +221,7 @@ def verify_rebalance(ex, contract, timeout_ms=30000):
             # zero target weight: close the child if it exists, otherwise do nothing at all
             ob("zero-weight:no-trade", Implies(zero, len(trades) == 0))
             ob("zero-weight:close-iff-child-exists", Implies(zero, had == (len(closes) == 1)) if len(closes) <= 1 else False)
-            ob("nonzero-weight:exactly-one-trade-no-close", Implies(Not(zero), And(len(trades) == 1, len(closes) == 0)))
+            ob("nonzero-weight:exactly-one-trade-no-close", Implies(Not(zero), And(len(trades) == 1, len(closes) == 0)), ("C06", "C03"))
             if closes:
                 c0 = closes[0]
                 ob("close-args", And(c0[1].term == self.term, c0[2][0].term == child.term, value_same(c0[2][1], update)))
@@ -235,7 +235,7 @@ def verify_rebalance(ex, contract, timeout_ms=30000):
                 mv_amount = rebalance_amount_mv(weight, wc, base_eff, H.get(self, "_value"))
                 fi_amount = rebalance_amount_fi(weight, wc, base_eff, H.get(self, "_notl_value"))
                 amt = a[0]
-                ob("amount:market-value-strategy", Implies(Not(fi_flag), value_same(amt, mv_amount)), ("C06",))
+                ob("amount:market-value-strategy", Implies(Not(fi_flag), value_same(amt, mv_amount)), ("C06", "C03"))   # homogeneous in (base, value): no absolute currency threshold
                 ob("amount:fixed-income-strategy", Implies(fi_flag, value_same(amt, fi_amount)), ("C06", "C17"))
                 # which operation: notional transact for fixed-income children of fixed-income strategies, cash allocate otherwise
                 is_tr = q.endswith(".transact")
@@ -692,6 +692,24 @@ def verify_close(ex, contract, timeout_ms=30000):
             # zero up to the code's own is_zero (transact ignores quantities below TOL)
             ob("security:position-is-zero-afterwards" + dbg, Implies(And(sec, Or(fi_strat, And(Not(is_zero(val)), Not(isnan(val)), Not(is_zero(prc)), Not(isnan(prc))))), is_zero(F.get(c, "_position"))))
             ob("security:flat-child-stays-flat", Implies(And(sec, is_zero(pos)), is_zero(F.get(c, "_position"))))
+            # a sub-strategy child: its own children are liquidated first (one flatten() on the child, iff it has children); what is then withdrawn
+            # is the child's value AFTER that liquidation has been refreshed - read through the refreshing accessor, not a value remembered from before
+            strat = And(has, Not(issec), Not(fi_strat))
+            kids = Not(E.list_len(c, "_childrenv").eq(0))
+            flats = [x_ for x_ in calls if x_[0].endswith(".flatten")]
+            ob("strategy-child:its-own-children-are-flattened-first-iff-it-has-any", Implies(strat, kids == (len(flats) == 1)) if len(flats) <= 1 else Not(strat))
+            if flats:
+                ob("strategy-child:flatten-is-called-on-the-child-before-any-withdrawal", Implies(strat, And(flats[0][1].term == c.term, calls.index(flats[0]) == 0)))
+            ob("strategy-child:nothing-withdrawn-when-its-value-is-zero-or-nan", Implies(And(strat, Or(val.eq(0), isnan(val))), len(trades) == 0))
+            ob("strategy-child:otherwise-exactly-one-withdrawal", Implies(And(strat, Not(val.eq(0)), Not(isnan(val))), len(trades) == 1))
+            if trades:
+                t0_ = trades[0]
+                upd = update if not isinstance(update, bool) else z3.BoolVal(update)
+                a0 = t0_[2][0]
+                u0 = t0_[2][2] if t0_[0].endswith("StrategyBase.allocate") else t0_[2][1]
+                u0 = u0 if not isinstance(u0, bool) else z3.BoolVal(u0)
+                ob("strategy-child:the-withdrawal-is-minus-the-child's-value-read-after-the-liquidation-was-refreshed",
+                   Implies(strat, And(t0_[1].term == c.term, value_same(a0, -val), u0 == upd, Implies(bool(flats), Not(H.get(H.get(self, "root"), "stale"))))))
             x = z3.Const(dsl.fresh_name("xfr"), dsl.Ref)
             outside = And(x != self.term, slot_f(self.term, x) == -1, x != rt.term)
             if refreshed:
